@@ -10,9 +10,9 @@ package regular
 //vsym:model golang.org/x/crypto/ssh.MarshalAuthorizedKey m02MarshalAuthorizedKey
 //vsym:model encoding/json.Marshal m02JSONMarshal
 //vsym:replay same-harness
-//vsym:expect-cover C02.newhandler-wired C02.request-built C02.no-identifier C02.keygen-failed
+//vsym:expect-cover C02.newhandler-wired C02.request-built C02.no-identifier C02.keygen-failed C02.two-handlers
 //vsym:bound H02_generate: every ReqParam string (log name, transaction id, client IP, client-declared user and host) symbolic with one common length 0..2 bytes (any byte value); requested CA key algorithm any int; configured validity any 64-bit value; key-identifier map of 0..2 entries with symbolic algorithm keys; Generate called twice
-//vsym:bound H02_newhandler: NewHandler with the configuration decoder modelled as filling the handler configuration with an arbitrary validity and one key identifier, then one Generate
+//vsym:bound H02_newhandler: NewHandler with the configuration decoder modelled as filling the handler configuration with an arbitrary validity and one key identifier, then one Generate; then a second NewHandler with another validity and another key-slot table, and the first handler used again
 //vsym:assume key generation yields a fresh key pair object per call (model of key.GenerateKeyPair); encoding/json.Marshal records the value it is given (JSON escaping is the standard library's); the agent is a model behind the agent interface; mapstructure's traversal is modelled (ExtractHandlerConf fills the target with arbitrary values); NewHandler's own wiring is executed
 
 import (
@@ -240,6 +240,8 @@ func H02_generate() {
 var m02CfgValidity uint64
 var m02CfgAgent *m02Agent
 var m02ExtractCalls int
+var m02CfgAlgo = x509.RSA
+var m02CfgSlot = "slot-rsa"
 
 var m02NewHandlerScenario bool
 
@@ -252,8 +254,15 @@ func m02ExtractHandlerConf(g *config.GensignConfig, name string, target interfac
 	if !ok || name != HandlerName {
 		return errors.New("model: unexpected handler configuration target")
 	}
-	c.CertValiditySec = m02CfgValidity
-	c.KeyIdentifiers = map[x509.PublicKeyAlgorithm]string{x509.RSA: "slot-rsa"}
+	// as a weakly typed configuration decoder does: numbers are converted to
+	// the field's type, a map is filled in place when the target has one
+	if !vSetField(c, "CertValiditySec", m02CfgValidity) {
+		return errors.New("model: no CertValiditySec field")
+	}
+	if c.KeyIdentifiers == nil {
+		c.KeyIdentifiers = map[x509.PublicKeyAlgorithm]string{}
+	}
+	c.KeyIdentifiers[m02CfgAlgo] = m02CfgSlot
 	c.PubKeyDir = "/keys"
 	return nil
 }
@@ -299,4 +308,27 @@ func H02_newhandler() {
 	vAssert(r.KeyMeta != nil && r.KeyMeta.Identifier == "slot-rsa", "C02.key-slot-of-requested-algorithm")
 	vAssert(len(m02CfgAgent.added) == 1 && uint64(m02CfgAgent.added[0].LifetimeSecs) >= m02CfgValidity, "C02.agent-lifetime-follows-the-configuration")
 	vReach("C02.newhandler-wired")
+
+	// a second handler with another configuration in the same process (e.g.
+	// another connection served with a reloaded configuration): the first
+	// handler keeps its own validity and its own key slots
+	v1 := m02CfgValidity
+	m02CfgValidity = vNondetU64("second-configured-validity")
+	vAssume(vAnd(m02CfgValidity >= 1, m02CfgValidity <= 315360000))
+	m02CfgAlgo, m02CfgSlot = x509.ECDSA, "slot-ec"
+	gh2, err2 := NewHandler(&config.GensignConfig{}, nil)
+	vAssert(err2 == nil && gh2 != nil, "C02.handler-constructed")
+	added0 := len(m02CfgAgent.added)
+	keys, gerr = h.Generate(param)
+	vAssert(gerr == nil && len(keys) == 1, "C02.generate-succeeds")
+	if gerr == nil && len(keys) == 1 {
+		r := keys[0].CSRs()[0]
+		vAssert(r.Validity == v1, "C02.first-handler-keeps-its-configured-validity")
+		vAssert(r.KeyMeta != nil && r.KeyMeta.Identifier == "slot-rsa", "C02.first-handler-keeps-its-key-slots")
+		vAssert(len(m02CfgAgent.added) == added0+1 && uint64(m02CfgAgent.added[added0].LifetimeSecs) >= v1, "C02.first-handler-keeps-its-agent-lifetime")
+	}
+	ecParam := &csr.ReqParam{LogName: "user", TransID: "t", ClientIP: "1.2.3.4", ReqUser: "u", ReqHost: "h", Attrs: &message.Attributes{CAPubKeyAlgo: x509.ECDSA}}
+	_, eerr := h.Generate(ecParam)
+	vAssert(eerr != nil, "C02.first-handler-refuses-an-algorithm-only-the-second-configured")
+	vReach("C02.two-handlers")
 }
